@@ -200,30 +200,35 @@ def check(ck: Checker) -> None:
     _compare_rules(ck)
     _error_rules(ck)
 
+    rows_rule(ck, "C09.rows")
+
+
+def rows_rule(ck: Checker, rule: str) -> None:
+    prog = ck.prog
     # ----------------------------------------------------------------- rows
     cf = prog.func("index.checkout", "_create_files")
     gcf = ck.cfg(cf)
     tcalls = [(n, c) for n in gcf.nodes.values() for c in calls_at(n) if _is_generic_transfer(cf, c)]
-    ck.floor("C09.rows", len(tcalls), 1, "bulk copy calls in _create_files")
+    ck.floor(rule, len(tcalls), 1, "bulk copy calls in _create_files")
     for n, c in tcalls:
         sp = get_arg(c, None, "from_path", pos=1)
         dp = get_arg(c, None, "to_path", pos=3)
         if sp is None or dp is None:
-            ck.fail("C09.rows", cf, n, "bulk copy call without positional source/destination path lists")
+            ck.fail(rule, cf, n, "bulk copy call without positional source/destination path lists")
             continue
-        check_zip_alignment(ck, "C09.rows", cf, c, sp, dp, "the storage path (storage.get(entry))")
+        check_zip_alignment(ck, rule, cf, c, sp, dp, "the storage path (storage.get(entry))")
         dfs = get_arg(c, None, "to_fs", pos=2)
-        ck.require(dfs is not None and norm(dfs) == "fs", "C09.rows", cf, n, "destination filesystem is the workspace fs", f"destination filesystem is {norm(dfs) if dfs is not None else '?'}", construct=f"{n.text()[:60]} / dest fs")
+        ck.require(dfs is not None and norm(dfs) == "fs", rule, cf, n, "destination filesystem is the workspace fs", f"destination filesystem is {norm(dfs) if dfs is not None else '?'}", construct=f"{n.text()[:60]} / dest fs")
     # one appended row per entry
     loops = [h for h in gcf.nodes.values() if h.kind == "for" and norm(h.ast.iter) == "entries"]
-    ck.floor("C09.rows", len(loops), 1, "loops over the entries to create")
+    ck.floor(rule, len(loops), 1, "loops over the entries to create")
     for h in loops[:1]:
         apps = {x.id for x in gcf.nodes.values() if h.id in x.loops for c in calls_at(x)
                 if is_method_call(c, "append") and c.args and isinstance(c.args[0], ast.Tuple) and isinstance(c.func.value, ast.Subscript)}
         starts = [d for lab, d in h.succ if lab == "T"]
         reached = gcf.reach(starts, skip_node=lambda x: x.id in apps, skip_edge=lambda a, l, b: l == "exc")
         bad = h.id in reached
-        ck.require(bool(apps) and not bad, "C09.rows", cf, h,
+        ck.require(bool(apps) and not bad, rule, cf, h,
                    "every entry whose source resolves gets its own appended (entry, source, destination) row",
                    "an entry can pass through the loop without a row being appended for it (e.g. rows keyed/de-duplicated by source path): files sharing content are then not created",
                    witness=gcf.fmt_path(gcf.path_to(reached, h.id)) if bad else None, construct="for entry in entries / one row each")
